@@ -170,6 +170,13 @@ func (h *Hist) handleCrash(n *sim.Node, crashed bool) {
 }
 
 func (h *Hist) reboot(n *sim.Node, deliverBeforeRecover bool) {
+	// the chains keep moving while the node is down
+	if db := rapid.SampledFrom([]uint32{0, 0, 0, 1, 3, 30}).Draw(h.T, "blocksWhileDown"); db > 0 {
+		chain := rapid.SampledFrom(h.Cfg.Chains).Draw(h.T, "downChain")
+		h.W.Mine(chain, db)
+		h.opf("mine-while-down(%s,%d)", chain, db)
+		h.class("blocks-while-down")
+	}
 	if err := n.Boot(); err != nil {
 		h.T.Fatalf("reboot: %v", err)
 	}
